@@ -73,15 +73,82 @@ ENUM_SPECS = {e["cls"]: e for e in _gt.ENUMS}
 ENUMS = {n: list(e["members"]) for n, e in ENUM_SPECS.items()}
 
 
-def enum_src(name, ind="", decoy=False):
-    """functional-API definition (member names need not be identifiers); a decoy has the same name, other members"""
+def enum_src(name, ind="", decoy=False, as_name=None):
+    """functional-API definition (member names need not be identifiers); a decoy has the same name, other members.
+    `as_name`: the name the class is given in the generated source (see `rename_tree`)."""
     e = ENUM_SPECS[name]
+    cn = as_name or name
     if decoy:
-        return f'{ind}{name} = enum.Enum("{name}", {{"DECOY_A": "a", "DECOY_B": "b"}})'
+        return f'{ind}{cn} = enum.Enum("{cn}", {{"DECOY_A": "a", "DECOY_B": "b"}})'
     vals = e.get("values") or list(range(len(e["members"])))
     body = ", ".join(f"{m!r}: {v!r}" for m, v in zip(e["members"], vals))
     mix = ENUM_MIXINS.get(name)
-    return f'{ind}{name} = enum.Enum("{name}", {{{body}}}' + (f", type={mix.__name__}" if mix else "") + ")"
+    return f'{ind}{cn} = enum.Enum("{cn}", {{{body}}}' + (f", type={mix.__name__}" if mix else "") + ")"
+
+
+def enum_names(tree):
+    """{name in the generated source: enum of the universe}"""
+    al = tree.get("alias") or {}
+    return {al.get(n, n): n for n in ENUMS}
+
+
+def base_name(tree, i):
+    return (tree.get("alias") or {}).get("Base", "Base") + str(i)
+
+
+RESERVED = {"List", "Tuple", "Optional", "Union", "Path", "dataclass", "field", "enum", "run", "cb", "kid"}
+
+
+def name_variant(rng, n):
+    """legal, unambiguous spellings of a class name: public, private (leading underscore), trailing underscore, lower-case
+    private, a single letter.  (No double leading underscore: inside a class body such a name is mangled.)"""
+    p = rng.random()
+    if p < 0.45:
+        return n
+    if p < 0.70:
+        return "_" + n
+    if p < 0.80:
+        return n + "_"
+    if p < 0.90:
+        return "_" + n.lower() + "1"
+    return n[0].upper() if rng.random() < 0.5 else "_" + n[0]
+
+
+def rename_tree(rng, case):
+    """give every generated class (enums, nested dataclass, root, bases) its own spelling; names are data for the model"""
+    tree = case["tree"]
+    abstract = list(ENUMS) + [c["name"] for c in tree["classes"]] + ["Base"]
+    alias, used = {}, set(RESERVED)
+    for n in abstract:
+        v = name_variant(rng, n)
+        while v in used or any(v == f["name"] for c in tree["classes"] for f in c["fields"]):
+            v = v + "x"
+        used.add(v)
+        alias[n] = v
+
+    def ty(t):
+        t = dict(t)
+        if t["k"] in ("enum", "dc"):
+            t["cls"] = alias[t["cls"]]
+        for key in ("item", "inner"):
+            if key in t:
+                t[key] = ty(t[key])
+        for key in ("items", "alts"):
+            if key in t:
+                t[key] = [ty(x) for x in t[key]]
+        return t
+
+    def default(src):
+        if src is None:
+            return None
+        for n in sorted(alias, key=len, reverse=True):
+            src = src.replace(n + "[", alias[n] + "[").replace("default_factory=" + n + ")", "default_factory=" + alias[n] + ")")
+        return src
+
+    classes = [{"name": alias[c["name"]], "fields": [dict(f, ty=ty(f["ty"]), default=default(f["default"])) for f in c["fields"]]}
+               for c in tree["classes"]]
+    case["tree"] = dict(tree, classes=classes, root=alias[tree["root"]], alias=alias)
+    return case
 ATOMS = ["int", "float", "str", "bool", "path", "enum"]
 
 
@@ -421,7 +488,8 @@ def mk_argvs(rng, tree):
 
 def e2e_case(rng, stream="grammar"):
     tree = mk_tree(rng, stream)
-    return {"op": "annot.e2e", "case": {"tree": tree, "argvs": mk_argvs(rng, tree)}}
+    case = {"tree": tree, "argvs": mk_argvs(rng, tree)}
+    return {"op": "annot.e2e", "case": rename_tree(rng, case)}
 
 
 # ------------------------------------------------------------------------------------------------
@@ -707,8 +775,8 @@ def render_module(tree, style, layout, scope):
     live = live_of(style)
     ind = "    " if scope == "function" else ""
     body = []
-    for en in ENUMS:
-        body.append(enum_src(en, ind))
+    for cn, en in enum_names(tree).items():
+        body.append(enum_src(en, ind, as_name=cn))
     by = {c["name"]: c for c in tree["classes"]}
     for c in tree["classes"]:
         if c["name"] != tree["root"] or layout == "flat":
@@ -719,12 +787,12 @@ def render_module(tree, style, layout, scope):
             base = None
             for i, seg in enumerate(segs):
                 last = i == len(segs) - 1
-                cname = c["name"] if last else f"Base{i}"
+                cname = c["name"] if last else base_name(tree, i)
                 names = list(seg) + (tree["redeclare"] if last else [])
                 body += render_class(cname, base, [fmap[n] for n in names], live, ind)
                 base = cname
     root = tree["root"]
-    names = sorted(ENUMS) + [c["name"] for c in tree["classes"]]
+    names = sorted(enum_names(tree)) + [c["name"] for c in tree["classes"]]
     ns = "dict(" + ", ".join(f"{n}={n}" for n in names) + ")"
     src = ("from __future__ import annotations\n" if style.startswith("post_") else "") + HEADER
     if scope == "module":
@@ -732,7 +800,8 @@ def render_module(tree, style, layout, scope):
     else:
         # module-level globals with the SAME NAMES as the function-local classes but different contents: the
         # function-local ones must win when the postponed annotations are evaluated
-        src += DECOYS + "".join(f"@dataclass\nclass {c['name']}:\n    decoy_{i}: int = 0\n"
+        src += "".join(enum_src(en, decoy=True, as_name=cn) + "\n" for cn, en in enum_names(tree).items())
+        src += "".join(f"@dataclass\nclass {c['name']}:\n    decoy_{i}: int = 0\n"
                                for i, c in enumerate(tree["classes"]))
         src += "def run(cb):\n" + "\n".join(body) + f"\n    return cb({root}, {ns})\n"
     _ = by
@@ -762,7 +831,7 @@ def two_module_split(tree):
         if cn in by:                                   # the nested class's own annotations come along
             for f in by[cn]["fields"]:
                 in_a |= names_in(f["ty"])
-    everything = set(ENUMS) | {c["name"] for c in tree["classes"] if c["name"] != tree["root"]}
+    everything = set(enum_names(tree)) | {c["name"] for c in tree["classes"] if c["name"] != tree["root"]}
     derived_fields = list(tree["chain"][-1]) + list(tree["redeclare"])
     used_b = set()
     for n in derived_fields:
@@ -781,11 +850,13 @@ def render_two_modules(tree, style, name_a):
     fmap = {f["name"]: f for f in root["fields"]}
     fut = "from __future__ import annotations\n" if style.startswith("post_") else ""
 
+    en_map = enum_names(tree)
+
     def defs(names):
         out = []
         for n in names:
-            if n in ENUMS:
-                out.append(enum_src(n))
+            if n in en_map:
+                out.append(enum_src(en_map[n], as_name=n))
         for c in tree["classes"]:
             if c["name"] in names and c["name"] != tree["root"]:
                 out += render_class(c["name"], None, c["fields"], live, "")
@@ -795,13 +866,13 @@ def render_two_modules(tree, style, name_a):
     segs = tree["chain"]
     base = None
     for i, seg in enumerate(segs[:-1]):
-        a += render_class(f"Base{i}", base, [fmap[n] for n in seg], live, "")
-        base = f"Base{i}"
+        a += render_class(base_name(tree, i), base, [fmap[n] for n in seg], live, "")
+        base = base_name(tree, i)
     src_a = fut + HEADER + "\n".join(a) + "\n"
-    imported = sp_["a"] + [f"Base{i}" for i in range(len(segs) - 1)]
+    imported = sp_["a"] + [base_name(tree, i) for i in range(len(segs) - 1)]
     b = [f"from {name_a} import {', '.join(imported)}"] + defs(sp_["b"])
     b += render_class(tree["root"], base, [fmap[n] for n in list(segs[-1]) + list(tree["redeclare"])], live, "")
-    names = sorted(ENUMS) + [c["name"] for c in tree["classes"]]
+    names = sorted(en_map) + [c["name"] for c in tree["classes"]]
     ns = "dict(" + ", ".join(f"{n}={n}" for n in names) + ")"
     src_b = fut + HEADER + "\n".join(b) + f"\n\ndef run(cb):\n    return cb({tree['root']}, {ns})\n"
     return src_a, src_b
